@@ -19,6 +19,7 @@ RULE += ' Portfolio-level histories: in a fifth of the cases a second asset mirr
 RULE += " Kept handles and emptied/kept report copies as in C01 (also in the portfolio-level ladders: Position objects obtained earlier must agree with the portfolio's on quantity, price and total P&L)."
 RULE += ' Odd-case / colliding asset symbols in a fifth of the cases.'
 RULE += ' Every third step of the direct Position histories rebuilds the position through the public constructor from its own quantities, averages and commissions; the copy must report the same P&L figures.'
+RULE += ' Round 11: whole-number commissions arrive as ints too (ladder and broker workloads); after a refused direct fill or mark the (total, realised, unrealised) P&L triple of every portfolio is unchanged (pnl-changed-by-refused-request).'
 ASSUMPTIONS = [
     'tolerance 1e-9 x (sum |price x quantity| + |market value| + commissions + 1); measured error ~1e-14',
     'the statement is algebraic over the reals; monitoring shows it on every path class with many real draws, not for all reals',
